@@ -1653,7 +1653,7 @@ class BaseMatcher:
         dist = 0
         m_prev = self.lattice_best[0]
         for idx, m in enumerate(self.lattice_best[1:]):
-            if m_prev.edge_m.label != m.edge_m.label and m_prev.edge_m.l2 == m.edge_m.l1:
+            if m_prev.edge_m.key != m.edge_m.key and m_prev.edge_m.l2 == m.edge_m.l1:
                 # Go over the connection between two edges to compute the distance
                 cdist = self.map.distance(m_prev.edge_m.pi, m_prev.edge_m.p2)
                 cdist += self.map.distance(m_prev.edge_m.p2, m.edge_m.pi)
